@@ -361,7 +361,7 @@ impl<'a> Runner<'a> {
                                     let k = t.calls_log.iter().zip(want.iter()).take_while(|(a, b)| a == b).count();
                                     let got = t.calls_log.get(k).cloned().unwrap_or_else(|| "(no further call)".into());
                                     let exp = want.get(k).cloned().unwrap_or_else(|| "(no further call)".into());
-                                    t.out.push(format!("DEC {} | {} | {}", k, got, exp));
+                                    t.out.push(format!("DEC {} {} | {} | {}", k, if sh.utf8 { "utf8" } else { "8bit" }, got, exp));
                                 }
                             }
                         }
